@@ -158,8 +158,25 @@ func (w *World) After(d time.Duration, label string, fn func()) *Event {
 	w.seq++
 	e := &Event{At: w.Now() + d, Seq: w.seq, Label: label, Run: fn}
 	heap.Push(&w.events, e)
+	w.S.Poke()
 
 	return e
+}
+
+// Idle reports whether nothing can happen at the current instant: no goroutine is parked at a
+// hook (everything is blocked on time or I/O) and no simulator event is due.
+func (w *World) Idle() bool {
+	if w.S.NumParked() > 0 {
+		return false
+	}
+	now := w.Now()
+	for _, e := range w.events {
+		if !e.dead && e.At <= now {
+			return false
+		}
+	}
+
+	return true
 }
 
 // At schedules fn at absolute simulated time t.
@@ -424,4 +441,12 @@ func (w *World) StallG(g *simhook.G, d time.Duration) {
 	g.StallUntil = int64(w.Now() + d)
 	w.Stalls++
 	w.Fault("gstall")
+}
+
+// Sleep blocks the calling application goroutine for d of simulated time and re-enters the
+// scheduler afterwards (harness code is not instrumented, so it must not use time.Sleep directly).
+func Sleep(d time.Duration) {
+	simhook.Yield("app.sleep")
+	time.Sleep(d)
+	simhook.Resume("app.sleep")
 }
